@@ -157,11 +157,11 @@ func SeqCase(rt *rapid.T, prop, test string, pr *Profile) (*Run, *Replay) {
 		run.Do(op)
 	}
 	for i := 0; i < 20; i++ {
-		actions[fmt.Sprintf("op%02d", i)] = doc
+		actions[fmt.Sprintf("a_op%02d", i)] = doc
 	}
 	pseudo := func(kind string, weight int, enabled func() bool) {
 		for i := 0; i < weight; i++ {
-			actions[fmt.Sprintf("%s%d", kind, i)] = func(t *rapid.T) {
+			actions[fmt.Sprintf("z_%s%d", kind, i)] = func(t *rapid.T) {
 				if run.Poisoned || (enabled != nil && !enabled()) {
 					t.Skip(kind + " not applicable")
 				}
@@ -179,7 +179,7 @@ func SeqCase(rt *rapid.T, prop, test string, pr *Profile) (*Run, *Replay) {
 	for _, ea := range pr.Extra {
 		ea := ea
 		for i := 0; i < ea.Weight; i++ {
-			actions[fmt.Sprintf("%s%d", ea.Name, i)] = func(t *rapid.T) {
+			actions[fmt.Sprintf("m_%s%d", ea.Name, i)] = func(t *rapid.T) {
 				if run.Poisoned {
 					t.Skip("world is poisoned")
 				}
